@@ -436,6 +436,10 @@ func (c *ClusterInfo) syncSecureServingConfigLocked(newSecureServing proxyv1alph
 			}
 			klog.Infof("[cluster info] cluster=%q update key and cert", c.Cluster)
 			newCfg.certs = []tls.Certificate{cert}
+		} else {
+			// a key without a certificate (or the reverse) is no serving certificate: do not keep the previous one
+			klog.Infof("[cluster info] cluster=%q incomplete key/cert pair, cleanup key and cert", c.Cluster)
+			newCfg.certs = nil
 		}
 	}
 
